@@ -1,49 +1,88 @@
 #!/usr/bin/env python3
-"""Writes seeded/<id>-mN/meta.json from the sub-agent README, my verification log and the catch matrix logs."""
+"""Writes seeded/<id>-mN/meta.json from the sub-agent's README, my confirmation logs and a catch-matrix log.
+
+    tools/mkseedmeta.py [matrix log ...]      (default: /tmp/wt/matrix_final.log)
+
+The matrix log is what tools/seedrun.sh printed for every seeded change (applied to /repo, quick checks
+run, reverted). Confirmation logs (tools/verify_seed.sh) are looked up under /tmp/wt/out/<id>/verify*.txt;
+when the scratch area is gone the values already stored in meta.json are kept."""
 import json, os, re, sys, glob
+
 ROOT = os.path.dirname(os.path.dirname(os.path.abspath(__file__)))
 OUT = "/tmp/wt/out"
-matrix = {}
-for log in glob.glob("/tmp/wt/matrix*.log"):
-    for line in open(log):
-        m = re.match(r"RESULT /tmp/wt/out/(C\d+)/(m\d):(.*)", line.strip())
+logs = sys.argv[1:] or ["/tmp/wt/matrix_final.log"]
+matrix, observed = {}, {}
+for log in logs:
+    if not os.path.exists(log):
+        continue
+    for line in open(log, errors="replace"):
+        line = line.rstrip("\n")
+        m = re.match(r"RESULT (?:/tmp/wt/out/|seeded/)(C\d+)[/-](m\d):(.*)", line.strip())
         if m:
             key = f"{m.group(1)}-{m.group(2)}"
             for tok in m.group(3).split():
                 c, rc = tok.split("=")
                 matrix.setdefault(key, {})[c] = int(rc)
-extra = json.load(open(os.path.join(ROOT, "seeded", "extra_runs.json"))) if os.path.exists(os.path.join(ROOT, "seeded", "extra_runs.json")) else {}
-for k, v in extra.items():
-    matrix.setdefault(k, {}).update(v)
+            continue
+        m = re.match(r"\s*\[(C\d+-m\d)\]\s+(C\d+) exit=1 failure: (?:sig=(\S+) :: )?(.*)", line)
+        if m:
+            observed.setdefault(m.group(1), {})[m.group(2)] = (m.group(3) or m.group(4))[:160]
+
+WAVE = {"m1": "1 (plain)", "m2": "1 (plain)", "m3": "2 (needs something specific)", "m4": "2 (needs something specific)", "m5": "3 (adversarial: told what kind of harness to evade)", "m6": "3 (adversarial: told what kind of harness to evade)"}
+
+
+def confirmation(pid, m):
+    for vf in sorted(glob.glob(os.path.join(OUT, pid, "verify*.txt"))):
+        txt = open(vf).read()
+        if os.path.basename(vf) == f"verify5_{m}.txt":
+            mm = re.search(r"DEMO_WITHOUT=\S+ SUITE_WITH=\S+ DEMO_WITH=\S+", txt)
+            if mm:
+                return mm.group(0)
+        for line in txt.splitlines():
+            if line.startswith(f"{pid} {m} "):
+                return line.strip().split(" ", 2)[2]
+    return ""
+
+
+def needs(readme):
+    """The sub-agent's own words on what the change needs in order to manifest."""
+    lines = [l.strip() for l in readme.splitlines()]
+    for i, l in enumerate(lines):
+        if re.search(r"\btrigger", l, re.I) and len(l) > 20:
+            t = re.sub(r"[*`#]", "", l)
+            t = re.sub(r"^\s*[-•]\s*", "", t)
+            return t[:600]
+    body = " ".join(l for l in lines[1:] if l and not l.startswith("#"))
+    body = re.sub(r"[*`]", "", body)
+    return body[:400] if body else "see AGENT_README.md"
+
+
 for d in sorted(glob.glob(os.path.join(ROOT, "seeded", "C*-m*"))):
     key = os.path.basename(d)
     pid, m = key.split("-")
-    readme = open(os.path.join(d, "AGENT_README.md")).read() if os.path.exists(os.path.join(d, "AGENT_README.md")) else ""
+    rp = os.path.join(d, "AGENT_README.md")
+    readme = open(rp).read() if os.path.exists(rp) else ""
     title = readme.strip().splitlines()[0].lstrip("# ").strip() if readme.strip() else key
-    ver = ""
-    vf = os.path.join(OUT, pid, "verify.txt")
-    if os.path.exists(vf):
-        for line in open(vf):
-            if line.startswith(f"{pid} {m} "):
-                ver = line.strip().split(" ", 2)[2]
-    old = {}
     mp = os.path.join(d, "meta.json")
-    if os.path.exists(mp):
-        old = json.load(open(mp))
+    old = json.load(open(mp)) if os.path.exists(mp) else {}
     res = matrix.get(key, old.get("checks_run", {}))
     meta = {
         "id": key,
         "breaks_property": pid,
-        "summary": old.get("summary", title),
-        "needs_to_manifest": old.get("needs_to_manifest", "see AGENT_README.md (written by the sub-agent that produced the change)"),
-        "origin": "fresh sub-agent given only the property text and a scratch worktree of /repo",
-        "confirmed_by_me": ver or old.get("confirmed_by_me", ""),
-        "confirmation_cmd": "tools/verify_seed.sh <scratch worktree> seeded/%s  (demo without patch / repository suite with patch / demo with patch)" % key,
+        "round": WAVE.get(m, ""),
+        "summary": re.sub(r"[*`]", "", title),
+        "needs_to_manifest": needs(readme),
+        "origin": "fresh sub-agent given only the property text and a scratch worktree of /repo (nothing from /verif)",
+        "confirmed_by_me": confirmation(pid, m) or old.get("confirmed_by_me", ""),
+        "confirmation_cmd": "tools/verify_seed.sh <scratch worktree of /repo> seeded/%s   -> demo on the unchanged tree / repository test suite with the patch / demo with the patch" % key,
+        "run_cmd": "tools/seedrun.sh seeded/%s %s   (git -C /repo apply; ./check Cxx quick for each; git -C /repo checkout -- .)" % (key, " ".join(sorted(res)) or "<checks>"),
         "checks_run": res,
         "caught_by": sorted([c for c, rc in res.items() if rc == 1]),
         "not_caught_by": sorted([c for c, rc in res.items() if rc == 0]),
         "inconclusive": sorted([c for c, rc in res.items() if rc not in (0, 1)]),
-        "run_cmd": "tools/seedrun.sh seeded/%s <checks>   (git -C /repo apply; ./check Cxx quick; git -C /repo checkout -- .)" % key,
+        "first_failure_reported": observed.get(key, old.get("first_failure_reported", {})),
     }
-    json.dump(meta, open(mp, "w"), indent=1)
+    if old.get("note"):
+        meta["note"] = old["note"]
+    json.dump(meta, open(mp, "w"), indent=1, ensure_ascii=False)
     print(key, "caught by", meta["caught_by"], "missed by", meta["not_caught_by"], meta["inconclusive"])
